@@ -143,10 +143,12 @@ class VCGen:
             self.mathterms.append((key, x, t))
             ax = []
             if name == 'sqrt':
-                ax.append(z3.Implies(x >= 0, z3.And(t >= 0, t * t == x)))
+                # linear facts (always available) and the defining nonlinear one (left out of the first, cheapest attempt)
+                self.assumes.append(z3.Implies(x >= 0, z3.And(t >= 0, (x == 0) == (t == 0), (x == 1) == (t == 1), (x < 1) == (t < 1))))
+                ax.append(z3.Implies(x >= 0, t * t == x))
                 for (k2, x2, t2) in self.mathterms:
                     if k2[0] == 'sqrt' and k2 != key:
-                        ax.append(z3.Implies(z3.And(x >= 0, x2 >= 0), (x <= x2) == (t <= t2)))
+                        self.assumes.append(z3.Implies(z3.And(x >= 0, x2 >= 0), z3.And((x <= x2) == (t <= t2), (x == x2) == (t == t2))))
             if name == 'exp':
                 ax.append(t > 0)
                 ax.append((x == 0) == (t == 1))
@@ -167,7 +169,14 @@ class VCGen:
             return a * b
         if self._rmul is None:
             self._rmul = z3.Function('rmul', R, R, R)
-        return self._rmul(a, b)
+        t = self._rmul(a, b)
+        # the arithmetic facts kept about products: a square is non-negative; a product with a zero factor is zero
+        key = t.get_id()
+        if key not in self._rmul_seen:
+            self._rmul_seen.add(key)
+            if a.eq(b):
+                self.assumes.append(t >= 0)
+        return t
 
     # ------------------------------------------------------------------ obligations
     def oblige(self, st, kind, goal, node=None, note='', text=''):
@@ -798,7 +807,7 @@ class VCGen:
                 if self.rett == 'double':
                     v = self.todouble(v)
                 st.vars['!ret'] = v
-            self.return_states.append((st.copy(), n.get('line')))
+            self.return_states.append((st.copy(), n.get('line'), self.loop_ctx[-1] if self.loop_ctx else None))
             return {'return': st}
         if k == 'BreakStmt':
             return {'break': st}
@@ -1050,7 +1059,11 @@ class VCGen:
         if spec.variant:
             var0 = SymEnv(self, b, {}, old=self.entry, goal=True).num(SymEnv(self, b, {}, old=self.entry, goal=True).eval(spec.variant))
             self.oblige(b, 'variant', var0 >= 0, line, note='loop %d variant non-negative when the loop continues: %s' % (ordinal, spec.variant), text=spec.variant)
-        r = self.ex(b, body)
+        self.loop_ctx.append(hc.vars.get(spec.var) if spec.var else None)
+        try:
+            r = self.ex(b, body)
+        finally:
+            self.loop_ctx.pop()
         nxt = merge([r.get('normal'), r.get('continue')])
         if nxt is not None:
             for rn, al in h.alive.items():
@@ -1359,9 +1372,9 @@ class VCGen:
         self.fname = name; fn = self.funcs[cname]; c = self.contract = self.contracts[name]
         self.loopno = 0; self.assumes = []; self.regions = {}; self.obls = []; self.covers = []
         self.counter = {}; self.mallocs = 0; self.called = set(); self.trusted = set(); self.axioms_listed = []
-        self.cutloops = 0; self.unrolled = 0; self.terminating = 0; self.nonterminating = []; self.return_states = []
+        self.cutloops = 0; self.unrolled = 0; self.terminating = 0; self.nonterminating = []; self.return_states = []; self.loop_ctx = []
         self.mathterms = []; self.mathfuns = {}; self.ghost_level = {}; self.math_axioms = set()
-        self.uf_mul = bool(c.options.get('uf_mul')); self._rmul = None
+        self.uf_mul = bool(c.options.get('uf_mul')); self._rmul = None; self._rmul_seen = set()
         self.rett = ctype(cast.ret_type(fn))
         body = cast.body_of(fn)
         # locals: types (for havoc ranges) and never-assigned `static double zero = 0.0`
@@ -1445,13 +1458,22 @@ class VCGen:
         # one group of postcondition obligations per return statement (states are not merged: simpler VCs)
         exits = list(self.return_states)
         if self.rett == 'void' and r.get('normal') is not None:
-            exits.append((r['normal'], body.get('line')))
-        for (fs, rline) in exits:
+            exits.append((r['normal'], body.get('line'), None))
+        for (fs, rline, ctx) in exits:
             post = fs.copy()
             for p in self.params:
                 post.vars[p] = self.entry.vars[p]       # parameter names in `ensures` denote entry values
             res = fs.vars.get('!ret')
             envp = SymEnv(self, post, {}, old=self.entry, result=res, goal=True)
             for e in c.ensures_:
-                self.oblige(fs, 'post', envp.boolean(e), 'ret%s' % rline, note='ensures (return at line %s) %s' % (rline, e), text=e)
+                g = envp.boolean(e)
+                parts = None
+                if ctx is not None and z3.is_expr(ctx) and z3.is_int(ctx):
+                    # return from inside a cut loop: elements established by earlier iterations / by this one
+                    parts = self.split_at(g, ctx)
+                if parts:
+                    self.oblige(fs, 'post', parts[0], 'ret%s' % rline, note='ensures (return at line %s, elements of earlier iterations) %s' % (rline, e), text=e)
+                    self.oblige(fs, 'post', parts[1], 'ret%s' % rline, note='ensures (return at line %s, element of this iteration) %s' % (rline, e), text=e)
+                else:
+                    self.oblige(fs, 'post', g, 'ret%s' % rline, note='ensures (return at line %s) %s' % (rline, e), text=e)
         return self.obls
